@@ -4,9 +4,13 @@
 
    Events, `;`-separated, in the global order in which the harness issued the commands (one outstanding
    command at a time):
-     <conn>,<payload type>,<accepting users|->,<ok|no|bad|bye|byeonly|none>,<seen users|->,<sent ms>,<recv ms>,<flags|->
+     <conn>,<payload type>,<accepting users|->,<ok|no|bad|bye|byeonly|none>,<seen users|->,<sent ms>,<recv ms>,<flags|->,<probe>
    flags: b = the reply text was "too many login attempts", f = the command was the full listing LIST "" "*",
           u = the completion was an untagged NO/BAD (the line had no tag).
+   probe: `-` = none; `p<users>` = the LOGIN was answered OK and the harness' identity probe (LIST "" "*" on that session,
+          straight after the reply) listed marker mailboxes of these users (9 = the probe itself was refused).
+   `A,<what>` = an ADMIN step of the harness (a user removed / added again): no command, counted as a step only; the
+   accepting users of later LOGINs reflect it.
    Last event: E,<users whose before/after views differ|->.   Users are single digits.
 
    What is checked per step, with p = the model's protocol state of that connection:
@@ -35,6 +39,9 @@
      timer observable without any upper time bound).
    * isolation: markers seen in a reply belong to the user the model says the session is authenticated as
      (none before authentication); the full listing shows exactly that user's marker.
+   * identity of an accepted LOGIN: the probe must list the mailboxes of exactly the user `chosen` picks among the
+     users whose connector accepts the presented pair — whatever was presented or accepted earlier on the server;
+     a LOGIN answered OK for a pair nobody's connector accepts is reported with the user whose data the session got.
    * effects (last event): a user's view may differ only if the model ran a handler body for that user
      (`Env.exec` instantiated as "touched"). -/
 import GluonModel.Model.AuthFacts
@@ -54,6 +61,7 @@ structure Ev where
   recv : Nat
   blocked : Bool
   full : Bool
+  who : Option (List Nat)    -- identity probe after an accepted LOGIN
 
 def digitsOf (s : String) : List Nat :=
   if s == "-" then [] else s.toList.map (fun c => c.toNat - 48)
@@ -62,11 +70,14 @@ def showDigits (l : List Nat) : String :=
   if l.isEmpty then "-" else String.join (l.map toString)
 
 def parseEv (s : String) : Option Ev :=
+  let mk (c ty acc st seen sent recv fl pr : String) : Ev :=
+    { conn := c.toNat?.getD 0, ty := ty, acc := digitsOf acc, status := st, seen := digitsOf seen,
+      sent := sent.toNat?.getD 0, recv := recv.toNat?.getD 0,
+      blocked := fl.toList.contains 'b', full := fl.toList.contains 'f',
+      who := if pr.startsWith "p" then some ((pr.drop 1).toString.toList.map (fun ch => ch.toNat - 48)) else none }
   match s.splitOn "," with
-  | [c, ty, acc, st, seen, sent, recv, fl] =>
-    some { conn := c.toNat?.getD 0, ty := ty, acc := digitsOf acc, status := st, seen := digitsOf seen,
-           sent := sent.toNat?.getD 0, recv := recv.toNat?.getD 0,
-           blocked := fl.toList.contains 'b', full := fl.toList.contains 'f' }
+  | [c, ty, acc, st, seen, sent, recv, fl] => some (mk c ty acc st seen sent recv fl "-")
+  | [c, ty, acc, st, seen, sent, recv, fl, pr] => some (mk c ty acc st seen sent recv fl pr)
   | _ => none
 
 def respName : Resp → String
@@ -129,21 +140,27 @@ def judgeEv (jail : Nat) (st : JSt) (i : Nat) (e : Ev) : Except String JSt :=
     else if e.status == respName rF then some (pF, sF, rF, e.status)
     else if rT != rF && rF == .no && e.status == "bad" then some (pF, sF, rF, "bad")
     else none
+  -- what the property itself forbids, whatever the model predicts (told apart from a disagreement between model and
+  -- code, and reported first: with facts of an unknown shape the model predicts nothing)
+  let forbidden : Option String :=
+    if AuthSpec.needsAuth e.ty && p.user.isNone && e.status == "ok" then
+      some s!"property gated-command-accepted-without-authentication {here}"
+    else if AuthSpec.needsSelected e.ty && isAuth p && e.status == "ok" then
+      some s!"property message-command-accepted-without-selected-mailbox {here}"
+    else if e.ty == "Login" && e.acc.isEmpty && e.status == "ok" then
+      some s!"property wrong-credentials-authenticated no-connector-accepts-the-pair session-lists-mailboxes-of={showDigits (e.who.getD [])} {here}"
+    else if e.ty == "Login" && p.user.isSome && e.status == "ok" then
+      some s!"property login-accepted-in-authenticated-session {here}"
+    else if e.ty == "Login" && e.status == "ok" && e.who.isSome && !(e.who.getD []).all e.acc.contains then
+      some s!"property identity login-bound-to-another-user pair-accepted-by-connector-of={showDigits e.acc} session-lists-mailboxes-of={showDigits (e.who.getD [])} {here}"
+    else none
+  match forbidden with
+  | some why => .error why
+  | none =>
   if sT.breach || sF.breach then
     .error s!"model-mismatch the-regenerated-facts-lack-a-guard-or-shape-the-model-relies-on {here}" else
   match choice with
-  | none =>
-    -- tell a violation of the property apart from a disagreement between model and code
-    if AuthSpec.needsAuth e.ty && p.user.isNone && e.status == "ok" then
-      .error s!"property gated-command-accepted-without-authentication {here}"
-    else if AuthSpec.needsSelected e.ty && isAuth p && e.status == "ok" then
-      .error s!"property message-command-accepted-without-selected-mailbox {here}"
-    else if e.ty == "Login" && e.acc.isEmpty && e.status == "ok" then
-      .error s!"property wrong-credentials-authenticated {here}"
-    else if e.ty == "Login" && p.user.isSome && e.status == "ok" then
-      .error s!"property login-accepted-in-authenticated-session {here}"
-    else
-      .error s!"model-mismatch completion-class {here}"
+  | none => .error s!"model-mismatch completion-class {here}"
   | some (p', sys', r, outcome) =>
     -- the login attempt behind this step (only a not-authenticated session reaches getUserID)
     let isAttempt := e.ty == "Login" && p == .notAuth && route C18.facts e.ty == .login
@@ -159,6 +176,8 @@ def judgeEv (jail : Nat) (st : JSt) (i : Nat) (e : Ev) : Except String JSt :=
       .error s!"property isolation session-of={showDigits allowed} saw-markers-of={showDigits e.seen} {here}"
     else if e.full && r == .ok && e.seen != p'.user.toList then
       .error s!"property identity session-of={showDigits p'.user.toList} full-listing-shows={showDigits e.seen} {here}"
+    else if isAttempt && r == .ok && e.who.isSome && e.who != some p'.user.toList then
+      .error s!"property identity login-bound-to-another-user pair-accepted-by-connector-of={showDigits e.acc} session-lists-mailboxes-of={showDigits (e.who.getD [])} {here}"
     else
     let h' :=
       if isSelected p' then ""
@@ -180,7 +199,8 @@ def judgeWire (args : List String) : String :=
     let rec go (st : JSt) (i : Nat) : List String → String
       | [] => "violation unparsable-trace no-end-event"
       | s :: rest =>
-        if s.startsWith "E," then
+        if s.startsWith "A," then go { st with n := st.n + 1 } (i + 1) rest
+        else if s.startsWith "E," then
           let changed := digitsOf (s.drop 2).toString
           let touched := (List.range nu).filter (fun u => st.sys.store u)
           match changed.filter (fun u => !(st.sys.store u)) with
